@@ -7,6 +7,11 @@ def run():
     chk = Check("C06")
     chk.add_model("MutexCvMC/mutex+timed", vlib.model_check("MutexCvMC", "MutexCvMC_mutex.cfg", timeout=600))
     chk.add_model("MutexCvMC/recursive", vlib.model_check("MutexCvMC", "MutexCvMC_rec.cfg", timeout=600))
+    # fine-grained model of mutex / timed_mutex on the internal condition variable
+    chk.add_model("MutexImpl (owner + internal spinlock + cv queue, 2 lockers x 2 rounds + 1 timed attempt)",
+                  vlib.model_check("MutexImpl", "MutexImpl.cfg", timeout=600))
+    r = vlib.model_check("MutexImpl", "MutexImpl_dev.cfg", expect_ok=False, timeout=600)
+    chk.add_model("MutexImpl/variant timeout_swallows_wake (must violate)", r, note="violated: %s" % r["violated"])
     (binary,) = vlib.build_harness(["sync_harness"])
     nruns = 64 if chk.thorough() else 16
     nhist = 150 if chk.thorough() else 60
